@@ -60,6 +60,15 @@ def chars(alphabet, min_size=0, max_size=10):
 
 @st.composite
 def text_value(draw, min_size=3, max_size=16, exact=None, alphabet_mid=TEXT_MID):
+    if exact is None and alphabet_mid is TEXT_MID and draw(st.integers(0, 11)) == 0:
+        # shapes that a sloppy classifier could take for a number / hex string / reserved word
+        v = draw(st.sampled_from(["+1f", "-42", "0x1F", "0Xab", "1_000", "dead_beef", "+12", "12.5", "1_5", "ab_cd", "FF_FF", "-ff"]))
+        if draw(st.booleans()):
+            words = sorted(w for w in _reserved() if w.isalpha() and len(w) >= 4)
+            w = words[draw(st.integers(0, len(words) - 1))]
+            v = draw(st.sampled_from([w.capitalize(), w.upper(), w[0].upper() + w[1:]]))
+        if v not in _reserved() and len(v) >= min_size - 1 and classify(v) == {"text"}:
+            return v
     n = exact if exact is not None else draw(st.integers(min_size, max_size))
     mid = "".join(draw(st.lists(st.sampled_from(alphabet_mid), min_size=max(n - 2, 0), max_size=max(n - 2, 0))))
     a = draw(st.sampled_from(TEXT_END))
@@ -85,6 +94,9 @@ def numeric_value(draw):
 @st.composite
 def hex_value(draw):
     v = draw(chars("0123456789abcdefABCDEF", 2, 20))
+    if draw(st.integers(0, 7)) == 0:
+        k = draw(st.sampled_from([32, 40, 64, 16, 48]))  # standard key sizes
+        v = "".join(draw(st.lists(st.sampled_from("0123456789abcdef"), min_size=k, max_size=k)))
     if not any(c in "abcdefABCDEF" for c in v):
         v += draw(st.sampled_from("abcdefABCDEF"))
     if _TYPE7_SHAPE.match(v):
@@ -122,7 +134,8 @@ def md5_value(draw, salt_len=None):
 def sha512_value(draw):
     salt = "".join(draw(st.lists(st.sampled_from(CRYPT64), min_size=16, max_size=16)))
     digest = "".join(draw(st.lists(st.sampled_from(CRYPT64), min_size=86, max_size=86)))
-    return "$6$" + salt + "$" + digest
+    rounds = "rounds=%d$" % draw(st.sampled_from([5000, 656000, 1000, 999999999])) if draw(st.integers(0, 4)) == 0 else ""
+    return "$6$" + rounds + salt + "$" + digest
 
 
 @st.composite
